@@ -20,7 +20,7 @@ func init() { register(c02{}) }
 func (c02) Meta() core.Meta {
 	return core.Meta{
 		ID: "C02", Level: "exploration",
-		Rule: "case i = f(seed,i): C01 document (no CR in values, element names not starting with the attribute prefix) x symmetric configuration (non-empty attr prefix x key prefix x lower x snake x simple-as-map x keep-spaces x {encoder-side, decoder-side} escaping x float/bool cast); m1=NewMapXml(doc); x=m1.Xml(); xi=m1.XmlIndent(prefix,indent) with blank indent strings (tab/newline only under keep-spaces). Monitors: std tokenizer accepts x and xi with exactly one root; NewMapXml(x)==m1==NewMapXml(xi); conservation: the XTree parsed from x equals the source XTree after key folding as a tree of per-name child sequences, attribute sets and (cast-normalised, trimmed) text - nothing lost, duplicated or re-parented. Non-trivial as C01; distinct by hash(doc,config,indent).",
+		Rule:        "case i = f(seed,i): C01 document (no CR in values, element names not starting with the attribute prefix) x symmetric configuration (non-empty attr prefix x key prefix x lower x snake x simple-as-map x keep-spaces x {encoder-side, decoder-side} escaping x float/bool cast); m1=NewMapXml(doc); x=m1.Xml(); xi=m1.XmlIndent(prefix,indent) with blank indent strings (tab/newline only under keep-spaces). Monitors: std tokenizer accepts x and xi with exactly one root; NewMapXml(x)==m1==NewMapXml(xi); conservation: the XTree parsed from x equals the source XTree after key folding as a tree of per-name child sequences, attribute sets and (cast-normalised, trimmed) text - nothing lost, duplicated or re-parented. Non-trivial as C01; distinct by hash(doc,config,indent).",
 		Assumptions: []string{"encoding/xml tokenizer defines well-formedness", "space indents are only used with keep-spaces off (blanks are significant there by documentation)"},
 		Anchors:     []string{"Map.Xml", "Map.XmlIndent", "marshalMapToXmlIndent", "escapeChars", "xmlToMapParser", "attrList.Less", "elemList.Less"},
 		Floors:      map[string]int64{"feature:interleaved": 50, "feature:wide": 5, "cfg:decesc": 300, "cfg:cast": 300, "cfg:keepspaces": 300, "cfg:simplemap": 300, "feature:specials-in-values": 1000, "feature:text-beside": 1000},
@@ -34,7 +34,7 @@ func (c02) Cases(tier string, race bool) int {
 	if tier == "thorough" {
 		return 400000
 	}
-	return 10000
+	return 30000
 }
 
 var c02texts = func() []string {
